@@ -37,6 +37,9 @@ TEXT.update({
     "C04": ("differential monitor: every storage kind / wrapper combination against a BTreeMap over arbitrary operation sequences, slice views and dense-table hook included",
             "Return values (incl. replaced / removed value ids), mask, count, emptiness and every lookup are compared with a plain map after every operation of seeded random sequences over 17 storage/wrapper combinations and dense / sparse / layer-boundary index sets; as_slice / as_mut_slice views and the DenseVecStorage index tables (verif-hooks self-check) are compared too. Thorough adds release, far indices (>262144) and ASan.",
             "3.C04"),
+    "C06": ("set-algebra oracle over self-identifying join items (order, multiplicity, own components, mutation locality) for macro-generated join shapes of every arity",
+            "For every shape and membership assignment the expected ascending index list is computed with BTreeSet algebra on the model; every yielded item must sit at its position, each member slot must carry that index's own component (by value id), optional members must be reported correctly, writes through items must land on that entity only (full storage comparison afterwards); lending joins must visit the same indices and get(entity) must answer exactly for alive-and-in-intersection.",
+            "3.C06"),
     "C11": ("overlap monitor (per-storage reader/writer counters, logical-clock intervals, torn-write tokens) inside generated systems + borrow-state probe of SystemData declarations",
             "Random system graphs are dispatched on pools of 1-32 threads; each system updates atomic reader/writer counters for exactly the storages it holds, writes and re-validates unique tokens, and stamps enter/exit from a logical clock; after each dispatch exactly-once, conflict-pair disjointness, dependency, barrier and thread-local order are checked, panics escaping dispatch are violations, and for each storage handle type the real borrow state after fetch() is compared with reads()/writes(). Thorough adds ThreadSanitizer.",
             "3.C11"),
